@@ -80,6 +80,17 @@ func init() {
 }
 
 func init() {
+	known.Witnesses["FX-STREAM-unmatched-key-escape-refill"] = func() (bool, string) {
+		doc := []byte(`{"":null,"aaaaaaaaaaaa` + "\\" + `"":null}`)
+		var v struct{}
+		err := gojson.NewDecoder(jsongen.NewChunkReader(doc, []int{23, 8})).Decode(&v)
+		return err != nil, fmt.Sprintf("err=%v", err)
+	}
+	known.Witnesses["FX-STREAM-skip-number-refill"] = func() (bool, string) {
+		var v struct{ A bool }
+		err := gojson.NewDecoder(jsongen.NewChunkReader([]byte(`{"ZZ":  0}`), []int{9, 1})).Decode(&v)
+		return err != nil, fmt.Sprintf("err=%v", err)
+	}
 	known.DecWitnesses["FX-DEC-int-minus-leading-zero"] = func() (bool, string) { return Differs(`[-01]`, []int{}) }
 	known.DecWitnesses[known.DecSliceReuse] = func() (bool, string) {
 		type T struct{ C []float32 }
